@@ -247,6 +247,26 @@ fn hash_obj(o: &Object) -> u64 {
 	hash_of(o)
 }
 
+/// `o` is ==, Equal and hash-identical (as an Object and as a Value) to an object rebuilt from its entries
+fn same_as_rebuilt(o: &Object) -> bool {
+	let fresh = Object::from_vec(o.entries().to_vec());
+	let mut pushed = Object::new();
+	for e in o.entries() {
+		pushed.push(e.key.clone(), e.value.clone());
+	}
+	let (va, vb) = (Value::Object(o.clone()), Value::Object(fresh.clone()));
+	*o == fresh
+		&& fresh == *o
+		&& *o == pushed
+		&& o.cmp(&fresh) == std::cmp::Ordering::Equal
+		&& pushed.partial_cmp(o) == Some(std::cmp::Ordering::Equal)
+		&& hash_obj(o) == hash_obj(&fresh)
+		&& hash_obj(o) == hash_obj(&pushed)
+		&& va == vb
+		&& va.cmp(&vb) == std::cmp::Ordering::Equal
+		&& hash_of(&va) == hash_of(&vb)
+}
+
 pub struct ObjState {
 	/// first real object seen for each abstract entry list (C14: history independence)
 	pub seen: HashMap<String, (Object, u64, String)>,
@@ -280,14 +300,27 @@ pub fn keys_of_vector(rec: &J) -> Vec<String> {
 pub fn replay_obj(rep: &mut Report, st: &mut ObjState, rec: &J) {
 	rep.count("obj_vectors");
 	let mut o = Object::new();
+	// a twin that is observed (hashed, compared, cloned) after every step of the history: observation must not matter
+	let mut twin = Object::new();
+	let mut twin_ok = true;
 	let hist = rec["hist"].as_array().unwrap();
 	for (j, op) in hist.iter().enumerate() {
 		if let Err(p) = guarded(|| apply(&mut o, op, j)) {
 			rep.mismatch("C06.panic", json!({"what": "object operation panicked while replaying the access history", "vector": rec, "step": j, "panic": p}));
 			return;
 		}
+		twin_ok &= guarded(|| {
+			apply(&mut twin, op, j);
+			same_as_rebuilt(&twin)
+		})
+		.unwrap_or(false);
 	}
 	let salt = hist.len() + rep.counters["obj_vectors"] as usize;
+	twin_ok &= guarded(|| {
+		apply(&mut twin, &rec["op"], salt);
+		same_as_rebuilt(&twin)
+	})
+	.unwrap_or(false);
 	let ret = match guarded(|| apply(&mut o, &rec["op"], salt)) {
 		Ok(r) => r,
 		Err(p) => {
@@ -322,6 +355,9 @@ pub fn replay_obj(rep: &mut Report, st: &mut ObjState, rec: &J) {
 	if c != o || c.cmp(&o) != std::cmp::Ordering::Equal || hash_obj(&c) != h {
 		rep.mismatch("C14.clone", json!({"what": "a clone differs from its original (eq / cmp / hash)", "vector": rec}));
 	}
+	if !twin_ok || twin != o || hash_obj(&twin) != h || twin.cmp(&o) != std::cmp::Ordering::Equal {
+		rep.mismatch("C14.observed", json!({"what": "an object that was hashed / compared after every step of its history differs (eq / cmp / hash) from an object rebuilt from the same entries, or from the same history without observations", "vector": rec}));
+	}
 	let hist_s = format!("{}+{}", rec["hist"], rec["op"]);
 	match st.seen.get(&canon) {
 		None => {
@@ -350,6 +386,8 @@ pub fn record(args: &Args) {
 	let n = args.num("n", 300);
 	let nkeys = args.num("keys", 40);
 	let resets = args.num("resets", 3);
+	// observe > 0: after one operation in `observe` (on average) the object is hashed, compared and checked against a rebuilt one
+	let observe = args.num("observe", 0);
 	let out = args.get("out").unwrap_or_else(|| tool_error("record-obj: --out required"));
 	let mut rng = Rng::new(seed() ^ 0x0b1ec7);
 	// distinguishable keys: short, long (heap-allocated SmallString), multi-byte
@@ -417,6 +455,10 @@ pub fn record(args: &Args) {
 			Err(p) => json!({"panic": p}),
 		};
 		lines.push(json!({"ev": "op", "op": op, "ret": ret, "post": {"entries": entries_j(o.iter()), "idx": index_dump(&o)}}));
+		if observe > 0 && rng.below(observe) == 0 {
+			let same = guarded(|| same_as_rebuilt(&o)).unwrap_or(false);
+			lines.push(json!({"ev": "obs", "same": same, "entries": entries_j(o.iter())}));
+		}
 	}
 	let mut f = std::fs::File::create(out).unwrap_or_else(|e| tool_error(&format!("create {out}: {e}")));
 	use std::io::Write;
